@@ -19,11 +19,34 @@ func readPoints(r io.Reader, byteOrder binary.ByteOrder) ([]geom.Point, error) {
 	if err := binary.Read(r, byteOrder, &numPoints); err != nil {
 		return nil, err
 	}
-	points := make([]geom.Point, numPoints)
-	if err := binary.Read(r, byteOrder, &points); err != nil {
-		return nil, err
+	// numPoints comes from untrusted input: read the payload in bounded
+	// chunks so that memory use is limited by the data actually present
+	// rather than by the announced count.
+	points := make([]geom.Point, 0, minCount(numPoints, pointChunk))
+	for uint32(len(points)) < numPoints {
+		n := minCount(numPoints-uint32(len(points)), pointChunk)
+		chunk := make([]geom.Point, n)
+		if err := binary.Read(r, byteOrder, &chunk); err != nil {
+			return nil, err
+		}
+		points = append(points, chunk...)
 	}
 	return points, nil
+}
+
+// Limits on what is allocated on the strength of a count field alone.
+// Containers of geometries nest, so their initial capacity is kept small;
+// point arrays do not, so they are read in larger chunks.
+const (
+	maxPrealloc = 16
+	pointChunk  = 4096
+)
+
+func minCount(a, b uint32) uint32 {
+	if a < b {
+		return a
+	}
+	return b
 }
 
 func writePoint(w io.Writer, byteOrder binary.ByteOrder, point geom.Point) error {
